@@ -54,16 +54,26 @@ func (node *tagIncludeNode) Execute(ctx *ExecutionContext, writer TemplateWriter
 		}
 		err2 = includedTpl.ExecuteWriter(includeCtx, writer)
 		if err2 != nil {
-			return err2.(*Error)
+			return includeError(ctx, err2)
 		}
 		return nil
 	}
 	// Template is already parsed with static filename
 	err := node.tpl.ExecuteWriter(includeCtx, writer)
 	if err != nil {
-		return err.(*Error)
+		return includeError(ctx, err)
 	}
 	return nil
+}
+
+// includeError converts an error of the included template's ExecuteWriter into
+// an *Error. Execution errors already are one; an error returned by the
+// underlying writer is not and gets wrapped.
+func includeError(ctx *ExecutionContext, err error) *Error {
+	if e, ok := err.(*Error); ok {
+		return e
+	}
+	return ctx.OrigError(err, nil)
 }
 
 type tagIncludeEmptyNode struct{}
